@@ -155,12 +155,43 @@ Definition checked_mul (a b : Z) := checked (a * b).
 Definition checked_neg (a : Z) := checked (- a).
 (* i128::checked_pow(a, e : u32) by its contract: the exact power when representable.  Written so
    that it evaluates without building a^e for huge e: |a| <= 1 is immediate, and for |a| >= 2 an
-   exponent above 127 cannot fit (lemma checked_pow_spec: this equals `checked (a ^ e)`). *)
+   exponent above 127 cannot fit (lemma checked_pow_spec: this equals `checked (a ^ e)`).
+   Used by the proofs only; the model runs `checked_pow_loop` below. *)
 Definition checked_pow (a e : Z) : option Z :=
   if Z.abs a <=? 1 then
     Some (if e =? 0 then 1 else if a =? -1 then (if Z.even e then 1 else -1) else a)
   else if 127 <? e then None
   else checked (a ^ e).
+
+(* i128::checked_pow as std writes it (core/src/num/int_macros.rs): square-and-multiply with
+   checked_mul, leaving as soon as a product overflows.
+     if exp == 0 { return Some(1) }  let mut base = self; let mut acc = 1;
+     loop { if exp & 1 == 1 { acc = acc.checked_mul(base)?; if exp == 1 { return Some(acc) } }
+            exp /= 2; base = base.checked_mul(base)?; }
+   fuel = 32 iterations are enough for a u32 exponent; outer None = out of fuel (never, lemma
+   checked_pow_loop_spec), inner None = overflow. *)
+Fixpoint pow_loop (fuel : nat) (base acc exp : Z) : option (option Z) :=
+  match fuel with
+  | O => None
+  | S f =>
+      if Z.odd exp then
+        match checked_mul acc base with
+        | None => Some None
+        | Some acc' =>
+            if exp =? 1 then Some (Some acc')
+            else match checked_mul base base with
+                 | None => Some None
+                 | Some base' => pow_loop f base' acc' (exp / 2)
+                 end
+        end
+      else
+        match checked_mul base base with
+        | None => Some None
+        | Some base' => pow_loop f base' acc (exp / 2)
+        end
+  end.
+Definition checked_pow_loop (a e : Z) : option (option Z) :=
+  if e =? 0 then Some (Some 1) else pow_loop 32 a 1 e.
 
 (* i128::div_euclid / rem_euclid as std writes them, `/` and `%` truncating (Z.quot / Z.rem) *)
 Definition div_euclid (a b : Z) : Z :=
@@ -248,7 +279,11 @@ Definition num_pow (a b : value) : mres :=
     else match l, r with
          | NInt x, NInt y =>
              if (0 <=? y) && (y <=? u32_max)                      (* u32::try_from(b) *)
-             then match checked_pow x y with Some z => m_ok (value_of_int z) | None => m_err end
+             then match checked_pow_loop x y with
+                  | Some (Some z) => m_ok (value_of_int z)
+                  | Some None => m_err
+                  | None => Some (RErr ErrPanic)        (* out of fuel: unreachable *)
+                  end
              else m_err
          | _, _ => Some (RErr ErrPanic)
          end).
